@@ -5,6 +5,7 @@ import (
 	"context"
 	"encoding/json"
 	"fmt"
+	"io"
 	"os"
 	"runtime"
 	"sort"
@@ -21,7 +22,12 @@ import (
 	"github.com/libp2p/go-libp2p/p2p/security/noise"
 	"github.com/libp2p/go-libp2p/p2p/transport/tcp"
 
+	libshare "github.com/celestiaorg/go-square/v4/share"
+	"github.com/celestiaorg/rsmt2d"
+
+	"github.com/celestiaorg/celestia-node/share"
 	"github.com/celestiaorg/celestia-node/share/eds"
+	"github.com/celestiaorg/celestia-node/share/shwap"
 	"github.com/celestiaorg/celestia-node/share/shwap/p2p/shrex"
 	"github.com/celestiaorg/celestia-node/store"
 	"github.com/celestiaorg/celestia-node/zz_verif/vkit"
@@ -111,8 +117,59 @@ type c09acc struct {
 	closes atomic.Int32
 }
 
+// c09panicBase: a request for height c09panicBase+h is served from block h through an accessor whose
+// every data method panics — an injected fault below the handler (a corrupt file, a bug in a response
+// builder). What the server owes the client then is a refusal (status or stream reset), the accessor
+// closed and the memory released.
+const c09panicBase = 7_000_000
+
+type c09panicAcc struct{ eds.AccessorStreamer }
+
+func c09injected() { panic("c09: injected fault inside the block accessor") }
+
+func (c09panicAcc) Sample(context.Context, shwap.SampleCoords) (shwap.Sample, error) {
+	c09injected()
+	return shwap.Sample{}, nil
+}
+
+func (c09panicAcc) AxisHalf(context.Context, rsmt2d.Axis, int) (shwap.AxisHalf, error) {
+	c09injected()
+	return shwap.AxisHalf{}, nil
+}
+
+// (RowNamespaceData is left alone: eds.NamespaceData calls it from goroutines of its own, outside the
+// handler and therefore outside the server's panic recovery — a panic there is not a refusal of a
+// request but a crash that no request of the property's classes can provoke; namespace-data requests
+// meet the fault in AxisRoots, on the handler's goroutine.)
+func (c09panicAcc) AxisRoots(context.Context) (*share.AxisRoots, error) {
+	c09injected()
+	return nil, nil
+}
+
+func (c09panicAcc) RangeNamespaceData(context.Context, int, int) (shwap.RangeNamespaceData, error) {
+	c09injected()
+	return shwap.RangeNamespaceData{}, nil
+}
+
+func (c09panicAcc) Shares(context.Context) ([]libshare.Share, error) {
+	c09injected()
+	return nil, nil
+}
+
+func (c09panicAcc) Reader() (io.Reader, error) {
+	c09injected()
+	return nil, nil
+}
+
 func (s *c09store) GetByHeight(ctx context.Context, height uint64) (eds.AccessorStreamer, error) {
+	faulty := height >= c09panicBase
+	if faulty {
+		height -= c09panicBase
+	}
 	acc, err := s.inner.GetByHeight(ctx, height)
+	if err == nil && faulty {
+		acc = c09panicAcc{acc}
+	}
 	s.mu.Lock()
 	defer s.mu.Unlock()
 	if err != nil {
@@ -130,6 +187,9 @@ func (s *c09store) GetByHeight(ctx context.Context, height uint64) (eds.Accessor
 }
 
 func (s *c09store) HasByHeight(ctx context.Context, height uint64) (bool, error) {
+	if height >= c09panicBase {
+		height -= c09panicBase
+	}
 	return s.inner.HasByHeight(ctx, height)
 }
 
@@ -238,6 +298,10 @@ type c09stat struct {
 	LiveStreamScopesHoldingMemory                  int
 	Panics                                         int64
 	PanicSamples                                   []string
+	// StreamsHandled / StreamsAbandoned: shrex streams whose handler returned, and those among them
+	// that the handler left neither closed nor reset (observed around the handler, on the server)
+	StreamsHandled, StreamsAbandoned int64
+	AbandonedProtocols               []string
 	Goroutines                                     int
 }
 
@@ -364,7 +428,21 @@ func c09child(t *testing.T) {
 	// monitor waits for.
 	params.WriteTimeout = 15 * time.Minute
 	params.HandleRequestTimeout = 15 * time.Minute
-	srv, err := shrex.NewServer(params, h, cs)
+	var handled, abandoned atomic.Int64
+	var amu sync.Mutex
+	var aprotos []string
+	tap := &vkit.TapHost{Host: h, OnDone: func(rep vkit.TapReport) {
+		handled.Add(1)
+		if !rep.Closed && !rep.Reset {
+			abandoned.Add(1)
+			amu.Lock()
+			if len(aprotos) < 8 {
+				aprotos = append(aprotos, string(rep.Protocol))
+			}
+			amu.Unlock()
+		}
+	}}
+	srv, err := shrex.NewServer(params, tap, cs)
 	if err != nil {
 		fail("server", err)
 	}
@@ -415,6 +493,10 @@ func c09child(t *testing.T) {
 			}
 			ledger.mu.Unlock()
 			s.Panics = panics.Load()
+			s.StreamsHandled, s.StreamsAbandoned = handled.Load(), abandoned.Load()
+			amu.Lock()
+			s.AbandonedProtocols = append([]string(nil), aprotos...)
+			amu.Unlock()
 			pmu.Lock()
 			s.PanicSamples = append([]string(nil), psamples...)
 			pmu.Unlock()
